@@ -151,6 +151,39 @@ func lostUpdate(c *Ctx) {
 				o.Name()+" is a copy of an element of "+exprStr(container)+"; "+why+": the change is lost")
 		}
 	}
+	// the one-statement form: M[k] = fix(M[k]) — the copy handed to the helper by value comes back and is stored
+	// where it was taken from
+	for _, fi := range c.P.SortedFuncs() {
+		prop := ""
+		switch {
+		case c.below(fi, "FixEmptyResponseDescriptions"):
+			prop = "C19"
+		case c.below(fi, "Flatten") && !c.onSpec(fi) && !c.below(fi, "Schema"):
+			prop = "C01"
+		default:
+			continue
+		}
+		info := c.info(fi)
+		ast.Inspect(fi.Decl.Body, func(n ast.Node) bool {
+			as, ok := n.(*ast.AssignStmt)
+			if !ok || len(as.Lhs) != 1 || len(as.Rhs) != 1 {
+				return true
+			}
+			ix, ok := core.Unparen(as.Lhs[0]).(*ast.IndexExpr)
+			call, isCall := core.Unparen(as.Rhs[0]).(*ast.CallExpr)
+			if !ok || !isCall || !core.IsMap(info.TypeOf(ix.X)) {
+				return true
+			}
+			for _, a := range call.Args {
+				if sameExpr(a, ix) && c.P.Funcs[c.P.StaticCallee(fi, call)] != nil {
+					count[prop]++
+					c.S.Hold(prop, "LOST-UPDATE", fi.QName()+"/"+exprStr(ix.X)+"<-"+exprStr(call.Fun), c.P.Pos(as.Pos()),
+						"the element is handed to "+exprStr(call.Fun)+" by value and the result is stored back under the same key")
+				}
+			}
+			return true
+		})
+	}
 	// floors: at least one instance each (two and four on the pinned tree; a shared helper legitimately merges them)
 	if count["C19"] < 1 {
 		c.S.Undecided("C19", "LOST-UPDATE", "floor", "-", "no modified copy of a map element found in the fixer (two on the pinned tree)")
